@@ -1045,7 +1045,8 @@ where
                         .unwrap_or(trimmed)
                         .trim()
                         .strip_prefix("@jsx")
-                        .map(str::trim)
+                        .filter(|rest| rest.starts_with(char::is_whitespace))
+                        .and_then(|rest| rest.split_whitespace().next())
                 });
                 if let Some(pragma) = pragma {
                     self.pragma = Some(pragma.to_string());
